@@ -60,6 +60,9 @@ def repeat_harness(L, K, what, overlap, mode):
             elif what == "two-generators":
                 # default (energy) detection, where split() builds validator and tokenizer itself: two lazy runs with equal parameters are
                 # alive at once and consumed alternately (or the first is resumed after the second is finished); each must equal a run alone
+                # a cache keyed by the counts (if the code has one) makes the engine enumerate their values: counts above K + 1 windows
+                # behave like K + 1 on at most K windows, the enumeration is cut there (a stated bound of this harness only)
+                e.assume(P["mx"] <= K + 1)
                 table = {}
 
                 class RecValidator:
@@ -334,7 +337,7 @@ def run(rep):
                                     "completely, abandoned after 0-2 regions or after 0-%d bare reads, then rewound and split 3 times (with a pass abandoned after its first region in between) and compared "
                                     "with a fresh reader over its data; <= %d windows, n, window, hop, counts unbounded" % (K, K))
     rep.bounds["two live generators"] = ("default energy detection (validator class stubbed by per-instance decision bits): two split() generators with equal parameters over the same bytes, "
-                                         "consumed alternately or the first resumed after the second has finished, each compared with a run alone; <= %d windows" % K)
+                                         "consumed alternately or the first resumed after the second has finished, each compared with a run alone; <= %d windows, max_length <= %d windows" % (K, K + 1))
     rep.bounds["buffer source"] = "arbitrary position, read(j), close, open, read(k): unbounded n, p0, j, k"
     modes = (0, 6) if rep.tier == "quick" else tok.MODES
     for what, overlap in (("bytes", False), ("region", False), ("two-generators", False), ("reader-reopen", False), ("recorder", False), ("recorder", True)):
